@@ -31,6 +31,7 @@
 #include <nitro/except/raise.hpp>
 
 #include <array>
+#include <memory>
 #include <type_traits>
 
 namespace nitro
@@ -75,8 +76,12 @@ namespace lang
         }
 
         constexpr fixed_vector(fixed_vector<value_type>&& v)
-        : capacity_(v.capacity_), data_(std::move(v.data_))
+        : size_(v.size_), capacity_(v.capacity_),
+          data_(std::make_unique<value_type[]>(v.capacity_))
         {
+            // take over the storage of v and leave v empty, but usable with its capacity
+            data_.swap(v.data_);
+            v.size_ = 0;
         }
 
         constexpr fixed_vector operator=(const fixed_vector& v)
